@@ -196,10 +196,20 @@ def generate(repo):
 
 # ---------------------------------------------------------------------------------- rebin.py
 
+POS = {}      # axis positions used by rebin.py: name -> set of Gallina terms (in k) found in the source
+
+
+def record_pos(name, node):
+    """remember the subscript expression E of  name[E]  (an integer expression of the loop variable k)"""
+    POS.setdefault(name, set()).add(zexpr(node, {'k': 'k'}))
+
+
 def rexpr(node, env):
-    """integer expression of rebin.py: like zexpr, plus d[k] / d0[k] / len(d) / len(d0) and int(floor(e))"""
-    if isinstance(node, ast.Subscript) and isinstance(node.value, ast.Name) and is_name(node.slice, 'k') \
-            and node.value.id in ('d', 'd0'):
+    """integer expression of rebin.py: like zexpr, plus d[E] / d0[E] (E recorded as the axis position of the
+    loop variable k, emitted as rebin_pos_d / rebin_pos_d0) / len(d) / len(d0) and int(floor(e))"""
+    if isinstance(node, ast.Subscript) and isinstance(node.value, ast.Name) and node.value.id in ('d', 'd0') \
+            and not isinstance(node.slice, ast.Slice):
+        record_pos(node.value.id, node.slice)
         return env[node.value.id + 'k']
     if isinstance(node, ast.Call) and is_name(node.func, 'len') and len(node.args) == 1 \
             and isinstance(node.args[0], ast.Name) and node.args[0].id in ('d', 'd0'):
@@ -253,7 +263,7 @@ def store_is(st, rhs_text):
 
 def expand_branch(X, env, out):
     """the `d[k] > d0[k]` branch of the main loop"""
-    if len(X) != 1 or not is_range_loop(X[0], 'i', ast.parse('d[k]').body[0].value):
+    if len(X) != 1 or not is_range_dk(X[0], 'i'):
         raise P.Unrecognised('expand branch: for i in range(d[k]) expected')
     out.append('Definition rebin_expand_count (d0k dk : Z) : Z := dk.')
     b = X[0].body
@@ -313,7 +323,7 @@ def expand_branch(X, env, out):
 
 
 def keep_branch(Y, out):
-    if not (len(Y) == 1 and is_range_loop(Y[0], 'i', ast.parse('d[k]').body[0].value) and len(Y[0].body) == 3):
+    if not (len(Y) == 1 and is_range_dk(Y[0], 'i') and len(Y[0].body) == 3):
         raise P.Unrecognised('keep branch: copy loop expected')
     b = Y[0].body
     out.append('Definition rebin_keep_count (d0k dk : Z) : Z := dk.')
@@ -347,6 +357,17 @@ def guarded_raise(stmts, env):
     raise P.Unrecognised('expected `if ...: raise ValueError`')
 
 
+def is_range_dk(st, var):
+    """for var in range(d[E])  (E recorded)"""
+    ok = isinstance(st, ast.For) and is_name(st.target, var) and isinstance(st.iter, ast.Call) \
+        and is_name(st.iter.func, 'range') and len(st.iter.args) == 1 and not st.orelse \
+        and isinstance(st.iter.args[0], ast.Subscript) and is_name(st.iter.args[0].value, 'd') \
+        and not isinstance(st.iter.args[0].slice, ast.Slice)
+    if ok:
+        record_pos('d', st.iter.args[0].slice)
+    return ok
+
+
 def is_range_loop(st, var, over):
     return isinstance(st, ast.For) and is_name(st.target, var) and isinstance(st.iter, ast.Call) \
         and is_name(st.iter.func, 'range') and len(st.iter.args) == 1 and ast.dump(st.iter.args[0]) == ast.dump(over) \
@@ -364,14 +385,65 @@ def three_way(st):
 def slice_assign(st, target):
     """target[k] = slice(A, B) -> (A, B) ast nodes"""
     if isinstance(st, ast.Assign) and len(st.targets) == 1 and isinstance(st.targets[0], ast.Subscript) \
-            and is_name(st.targets[0].value, target) and is_name(st.targets[0].slice, 'k') \
+            and is_name(st.targets[0].value, target) and not isinstance(st.targets[0].slice, ast.Slice) \
             and isinstance(st.value, ast.Call) and is_name(st.value.func, 'slice') and len(st.value.args) == 2:
+        record_pos(target, st.targets[0].slice)
         return st.value.args
     return None
 
 
+def axis_plan(body, loop, lenarg, out):
+    """The axis loop of rebin(): which list position every per-axis object is indexed with (as a function of the
+    loop variable k), how many passes there are, that the three scratch slice lists are re-created inside every
+    pass, that each pass starts from the previous pass's result (xx = r) and that the result array of a pass has
+    the dtype of its input.  Model.axis_plan_ok compares these with the reference plan (pass k acts on nesting
+    level k); C14_rebin_axis_plan proves the comparison true for every rank."""
+    lb = loop.body
+    scratch = {'%s = [slice(None)] * len(%s)' % (name, ln): name
+               for name, ln in (('sliceobj0', 'd0'), ('sliceobj1', 'd0'), ('sliceobj', 'd'))}
+    # xx = x.copy(); new_shape = list(d0) before the loop (+ possibly hoisted scratch lists); return r after it
+    li = body.index(loop)
+    pre = [ast.unparse(s_) for s_ in body[3:li]]
+    hoisted = [scratch[t] for t in pre if t in scratch]
+    if [t for t in pre if t not in scratch] != ['xx = x.copy()', 'new_shape = list(d0)']:
+        raise P.Unrecognised('xx = x.copy(); new_shape = list(d0) expected before the main loop')
+    if not (len(body) == li + 2 and isinstance(body[li + 1], ast.Return) and is_name(body[li + 1].value, 'r')):
+        raise P.Unrecognised('return r expected after the main loop')
+    out.append('(* the axis loop, source line %d *)' % loop.lineno)
+    out.append('Definition rebin_loop_count (len_d0 len_d : Z) : Z := %s.'
+               % rexpr(loop.iter.args[0], {'len_d0': 'len_d0', 'len_d': 'len_d'}))
+    # new_shape[E] = d[E']
+    st = lb[0]
+    if not (isinstance(st, ast.Assign) and isinstance(st.targets[0], ast.Subscript) and is_name(st.targets[0].value, 'new_shape')
+            and isinstance(st.value, ast.Subscript) and is_name(st.value.value, 'd')):
+        raise P.Unrecognised('new_shape[k] = d[k] expected')
+    out.append('Definition rebin_pos_newshape (k : Z) : Z := %s.' % zexpr(st.targets[0].slice, {'k': 'k'}))
+    out.append('Definition rebin_pos_newextent (k : Z) : Z := %s.' % zexpr(st.value.slice, {'k': 'k'}))
+    if ast.unparse(lb[1]) != 'r = zeros(new_shape, dtype=xx.dtype)':
+        raise P.Unrecognised('r = zeros(new_shape, dtype=xx.dtype) expected')
+    out.append('Definition rebin_pass_keeps_dtype : bool := true.')
+    fresh = set()
+    j = 2
+    while j < len(lb) and ast.unparse(lb[j]) in scratch:
+        fresh.add(scratch[ast.unparse(lb[j])])
+        j += 1
+    if fresh | set(hoisted) != set(scratch.values()) or not isinstance(lb[j], ast.If) or len(lb) != j + 2:
+        raise P.Unrecognised('axis loop body: new_shape, r, slice lists, if/elif/else, xx = r expected')
+    # true iff all three scratch slice lists are re-created inside every pass (none kept from the previous axis)
+    out.append('Definition rebin_scratch_fresh : bool := %s.' % ('true' if len(fresh) == 3 else 'false'))
+    if ast.unparse(lb[j + 1]) != 'xx = r':
+        raise P.Unrecognised('xx = r expected at the end of the axis loop')
+    out.append('Definition rebin_pass_feeds_next : bool := true.')
+    for name, gname in (('d', 'd'), ('d0', 'd0'), ('sliceobj0', 'src'), ('sliceobj1', 'hi'), ('sliceobj', 'dst'), ('sum', 'sum')):
+        terms = POS.get(name, set())
+        if len(terms) != 1:
+            raise P.Unrecognised('%s is indexed with %d different positions' % (name, len(terms)))
+        out.append('Definition rebin_pos_%s (k : Z) : Z := %s.' % (gname, sorted(terms)[0]))
+
+
 def generate_rebin(repo):
     info = {'recognised': True, 'detail': []}
+    POS.clear()
     try:
         src = open(os.path.join(repo, 'pydl/rebin.py')).read()
         fn = P.find_function(ast.parse(src), 'rebin')
@@ -401,9 +473,10 @@ def generate_rebin(repo):
         out.append('Definition rebin_axis_rejects (d0k dk : Z) : bool :=\n  if %s then %s else if %s then false else %s.\n'
                    % (rbexpr(A, env), guarded_raise(X, env), rbexpr(B, env), guarded_raise(Z, env)))
         # xx = x.copy(); new_shape = list(d0); main loop
-        loop = body[5] if len(body) > 5 else None
-        if loop is None or not is_range_loop(loop, 'k', lenarg):
+        loops = [s_ for s_ in body[3:] if is_range_loop(s_, 'k', lenarg)]
+        if len(loops) != 1:
             raise P.Unrecognised('main loop expected')
+        loop = loops[0]
         tw = [s for s in loop.body if isinstance(s, ast.If)]
         if len(tw) != 1:
             raise P.Unrecognised('one if/elif/else in the main loop expected')
@@ -415,7 +488,7 @@ def generate_rebin(repo):
         out.append('Definition rebin_shrink_count (d0k dk : Z) : Z := dk.')
         # shrinking branch
         fv = assign_of(Z[0], 'f')
-        if fv is None or len(Z) != 2 or not is_range_loop(Z[1], 'i', ast.parse('d[k]').body[0].value):
+        if fv is None or len(Z) != 2 or not is_range_dk(Z[1], 'i'):
             raise P.Unrecognised('shrink branch: f = ...; for i in range(d[k]) expected')
         out.append('Definition rebin_shrink_f (d0k dk : Z) : Z := %s.' % rexpr(fv, env))
         ib = Z[1].body
@@ -436,6 +509,15 @@ def generate_rebin(repo):
             raise P.Unrecognised('shrink block branch')
         out.append('Definition rebin_shrink_lo (f i : Z) : Z := %s.' % rexpr(sl[0], env2))
         out.append('Definition rebin_shrink_hi (f i : Z) : Z := %s.' % rexpr(sl[1], env2))
+        # rshape = r[tuple(sliceobj)].shape ; rr = xx[tuple(sliceobj0)].sum(E).reshape(rshape)
+        rrv = assign_of(blk[2], 'rr')
+        okrr = ast.unparse(blk[1]) == 'rshape = r[tuple(sliceobj)].shape' and isinstance(rrv, ast.Call) \
+            and ast.unparse(rrv.func) .endswith('.reshape') and ast.unparse(rrv.args[0]) == 'rshape' \
+            and isinstance(rrv.func.value, ast.Call) and ast.unparse(rrv.func.value.func) == 'xx[tuple(sliceobj0)].sum' \
+            and len(rrv.func.value.args) == 1 and not rrv.func.value.keywords
+        if not okrr:
+            raise P.Unrecognised('shrink: rr = xx[tuple(sliceobj0)].sum(axis).reshape(rshape) expected')
+        record_pos('sum', rrv.func.value.args[0])
         last = blk[3]
         ok = isinstance(last, ast.If) and len(last.body) == 1 and len(last.orelse) == 1
         if ok:
@@ -446,8 +528,10 @@ def generate_rebin(repo):
         if not ok:
             raise P.Unrecognised('shrink: integer kinds -> rr//f, else rr/f expected')
         out.append('')
+        axis_plan(body, loop, lenarg, out)
+        out.append('')
         out.append('Definition rebin_recognised : bool := true.')
-    except (P.Unrecognised, SyntaxError, IndexError, OSError, KeyError) as e:
+    except (P.Unrecognised, SyntaxError, IndexError, OSError, KeyError, AttributeError) as e:
         info['recognised'] = False
         info['detail'].append('%s: %s' % (type(e).__name__, e))
         return None, info
